@@ -1,25 +1,32 @@
 CHECK = {
     "suites": [suite("conversation", "c16", 3000, 30000, stdin=True, timeout={"quick": 600, "thorough": 2400})],
     "gen": [{"pkg": "extract_c16", "out": "lean/ClusterVerif/Gen/C16.lean"}],
-    "lean_sources": ["ClusterVerif/Model/C16Source.lean", "ClusterVerif/Gen/C16.lean", "ClusterVerif/Model/C16.lean", "ClusterVerif/Spec/C16.lean", "ClusterVerif/Lemmas/C16.lean"],
+    "lean_sources": ["ClusterVerif/Model/C16Source.lean", "ClusterVerif/Model/C16Dec.lean", "ClusterVerif/Gen/C16.lean", "ClusterVerif/Model/C16Http.lean", "ClusterVerif/Model/C16.lean", "ClusterVerif/Model/C16Aux.lean", "ClusterVerif/Spec/C16.lean", "ClusterVerif/Lemmas/C16Http.lean", "ClusterVerif/Lemmas/C16.lean"],
     "rule": "cases = (op pin|unpin|PinLsCid, MaxDepth in {-2,-1,0,1,2,7}, Mode, update source none|other|same, 0-13 origins, UnpinDisable, "
-            "prior daemon state u|d|r|i of every CID, one of 21 daemon behaviours per sequential request + one for swarm/connect, wire variant) "
+            "prior daemon state u|d|r|i of every CID, one daemon behaviour per sequential request: a point of HTTP status (200, other 2xx, 3xx, 4xx, 5xx) x content type x "
+            "13 body shapes x 6 transports (complete, nothing, cut, cut after the work was done, stalled before / inside the body) or one of the 21 named wire forms incl. the pin/add stream forms; "
+            "one behaviour for swarm/connect, wire variant); every eighth case is one request of BlockGet|BlockPut|Resolve|SwarmPeers|RepoGC|ConfigKey answered by a point of the same product space, "
+            "with a variant of the well-formed reply (sub-path, other key, undecodable peer, per-key GC error, missing config key) "
             "from one splitmix64 stream per case index; every well-formed case is non-trivial; distinct by case line",
-    "trusted_base": ["scripted fake IPFS daemon of harness/c16 (go-ipfs pinner semantics for honest answers, wire forms of the 21 behaviours)",
+    "trusted_base": ["scripted fake IPFS daemon of harness/c16 (go-ipfs pinner semantics for honest answers, wire forms of the behaviours)",
+                     "harness/extract_c16: the symbolic path enumeration that turns doPostCtx/checkResponse/postCtx into decision tables (unknown constructs are emitted as `unknown` and fail closed)",
                      "net/http client and server of the Go standard library"],
     "assumptions": ["an IPFS error object in reply to pin/ls means 'not pinned' (the connector does not read the text)",
                     "a daemon that answers 200 has done what was asked, a daemon that answers non-200 has not, and it says 'not pinned' to pin/rm only for a CID it does not hold",
                     "connection drops are generated only in forms HTTP lets a client tell from completion (chunked or length-delimited bodies)",
                     "pin/ls of the update source and swarm/connect are advisory: their failures need not be reported",
-                    "the requested mode is read off MaxDepth as IsPinned does (0 = direct, otherwise recursive); a pin with Mode recursive, MaxDepth 0 and an update source is outside the domain"],
+                    "the requested mode is read off MaxDepth as IsPinned does (0 = direct, otherwise recursive); a pin with Mode recursive, MaxDepth 0 and an update source is outside the domain",
+                    "the daemon honours the type= filter of pin/ls when a depth-0 pin with an update source is looked up (go-ipfs does; the counterexample for a filter-ignoring daemon is proved and replayed)"],
 }
 META = {
     "text": "Kernel-checked theorems over a model of Connector.Pin/Unpin/PinLsCid talking to a daemon with a pin table and one scripted behaviour per request "
-            "(21 wire forms in 11 classes): every output the model admits satisfies every clause of the property for all pins, prior tables and scripts, "
-            "except for the one recorded finding (a stalled pin/update is never given up), whose negation is proved with a witness. "
+            "from the product space status code x content type x body shape x transport. The HTTP helpers (doPostCtx, checkResponse, postCtx) are not transcribed: the model interprets "
+            "decision tables regenerated from the source on every run, with post_success_iff (nil error exactly for status 200 with headers and a completely read body) and "
+            "every method's success resting on it; every PinLsCid call site of the source is extracted and skip_only_if_confirmed proved per site. "
+            "Every output the model admits satisfies every clause of the property for all pins, prior tables and scripts (allowed_holds, full since the repair of K28). "
             "Tied to today's code by running the real connector against a scripted fake HTTP daemon on loopback and comparing result class, request trace and "
             "final pin table with the model, and by evaluating the Lean property checker on the real outputs.",
     "note": "Trusted: Lean kernel, the hand-written model/spec, the fake daemon and its notion of an honest answer, Go net/http. Timing cases use a 60 ms PinTimeout "
             "and are repeated until two runs agree.",
-    "technique": "regenerated source text of the anchored functions checked against the transcribed snapshot (rfl) + Lean 4 theorems over an executable conversation model + differential correspondence with the real ipfshttp.Connector",
+    "technique": "semantic translator (go/ast symbolic path enumeration of the HTTP helpers into decision tables interpreted by the model; PinLsCid call sites) + regenerated source text of the anchored functions checked against the transcribed snapshot (rfl) + Lean 4 theorems over an executable conversation model + differential correspondence with the real ipfshttp.Connector",
 }
